@@ -115,7 +115,9 @@ def _fill_level():
         ('C08_confluence (FULL statement, theorem; no NoCalc, no Acyclic hypothesis), C08_status_is_den_dyn, '
          'C08_confluence_status_dyn, C08_complete_reports_closure_dyn, C08_complete_exit_dyn, C08_pair_monitor_holds: over '
          'ANY task graph - task_dep, setup edges and dynamic calc_dep edges (a calc task delivers task_dep / file_dep '
-         'owners / further calc_dep when it is executed or up-to-date; the oracle calcRes is a function of the task) - '
+         'owners / further calc_dep when it is executed or up-to-date [calcRes], and - as doit does - also when it FAILED '
+         'during its execution [calcResFail: the values of its earlier actions; Dyn.delivOf / startedFail, '
+         'C08_failed_started_iff; no NoFailDeliver hypothesis]; the oracles are functions of the task) - '
          'in every reachable state of the serial, thread and process transition systems of the run model (every '
          'schedule, every numProcess, every set-iteration order, every arrival order of calc results) every finished '
          'run_status and every terminal report (success / up-to-date / ignored / failure kind) equals the denotation '
@@ -1038,6 +1040,12 @@ def eval_group(case, variants, st, shrink_s=8.0, accept=True, den=True):
             st.divergence({'case': _strip(c), 'trace': o['trace'], 'exit': o['exit'], 'err': o['err'],
                            'matched': a.get('matched'), 'expected': a.get('expected')},
                           'K1: run (%s) is not a trace of the M1 model' % c['runner'])
+    # deliveries of calc tasks that FAILED during execution (runlib 'calc_first' tasks; model: calcResFail / deliverF):
+    # since the NoFailDeliver hypothesis was lifted (Dyn.delivOf / startedFail) the dynamic denotation evaluated by the
+    # driver covers them, so K2c applies; counted to show that the clause is exercised on real runs
+    if fam == 'A':
+        m0 = base.get('model') or {}
+        st.count('fail_delivery_case:%s' % any(m0.get('calcResFail') or []))
     # K2: denotation (hypotheses: no calc_dep, acyclic = determined)
     if ans is not None and fam == 'A':
         hyp = ans.get('nocalc') and ans.get('determined')
@@ -1060,6 +1068,8 @@ def eval_group(case, variants, st, shrink_s=8.0, accept=True, den=True):
                 if o['err'] is not None:
                     continue
                 st.count('den_c_checked:%s' % kind)
+                if any((base.get('model') or {}).get('calcResFail') or []):
+                    st.count('den_c_checked:fail_delivery')
                 if not ok:
                     st.divergence({'case': _strip(c), 'den': ans['den_c'], 'closure': ans['closure_c'],
                                    'den_exit': ans['exit_c'], 'reports': s['reports'], 'exit': o['exit'],
@@ -1591,7 +1601,9 @@ def gen_scale(rng, n_lo, n_hi):
     return {'fam': 'A', 'scale': shape, 'tasks': ts, 'sel': sel, 'cont': True, 'always': False, 'runner': 'serial', 'nproc': 0}
 
 
-A_KNOBS = {'n_max': 8, 'p_dup_sel': 0.0, 'p_cont': 0.6, 'weights': {'calc_dep': 9}}
+# p_calc_then_fail (runlib opt-in knob): a calc task whose first action returns the calc values and whose second action
+# fails -- doit delivers the values of the FAILED task (model: calcResFail / deliverF)
+A_KNOBS = {'n_max': 8, 'p_dup_sel': 0.0, 'p_cont': 0.6, 'weights': {'calc_dep': 9}, 'p_calc_then_fail': 0.3}
 
 
 def gen_variants(rng, case, kinds):
